@@ -108,12 +108,13 @@ MainSucceeds(T, main) ==
 
 -----------------------------------------------------------------------------
 (* Generator: classes of names and contents, made concrete *)
-FileNameClasses == {"valid", "dots", "digit", "space", "dash", "hidden", "nonascii", "nl_end"}
+FileNameClasses == {"valid", "underscore", "dots", "digit", "space", "dash", "hidden", "nonascii", "nl_end"}
 DirNameClasses == {"valid", "dots", "hidden", "dash", "digit"}
 ContentClasses == {"plain", "ws_around", "empty", "only_ws", "invalid_utf8", "bom", "crlf", "unicode_ws"}
 
 FileName(cls) ==
     CASE cls = "valid" -> <<122, 113, 95, 118, 97, 108, 105, 100, 46, 116, 120, 116>>
+      [] cls = "underscore" -> <<95, 122, 113, 46, 116, 120, 116>>
       [] cls = "dots" -> <<122, 113, 46, 118, 49, 46, 50, 46, 116, 120, 116>>
       [] cls = "digit" -> <<57, 122, 113, 46, 116, 120, 116>>
       [] cls = "space" -> <<122, 113, 32, 115, 112, 46, 116, 120, 116>>
